@@ -174,6 +174,9 @@ func genRestr(r *Rng, base string) []any {
 
 func genTypesCase(r *Rng) Case {
 	base := pick(r, typeBases)
+	if r.Chance(12) {
+		base = "string" // (length restrictions have a path of their own through the compiler)
+	}
 	nlev := 1 + r.Intn(3)
 	var levels []any
 	for i := 0; i < nlev; i++ {
@@ -205,9 +208,16 @@ func genTypesCase(r *Rng) Case {
 			// its definition, whatever a derived type says
 			lv["fd"] = 1 + r.Intn(18)
 		}
-		if i > 0 && r.Chance(30) {
+		if i > 0 && r.Chance(40) {
 			// a restriction written against the one below: single values just above, just below, inside, in a gap
 			if prev, ok := levels[i-1].(map[string]any)["restr"].([]any); ok && cbool(levels[i-1].(map[string]any), "isLength") == isStr {
+				if r.Chance(70) {
+					// ... which is mostly put in order first (ascending, apart), so that the one above is what decides
+					if t := tidyRestr(prev); t != nil {
+						prev = t
+						levels[i-1].(map[string]any)["restr"] = t
+					}
+				}
 				if d := deriveRestr(r, prev); d != nil {
 					lv["restr"], lv["isLength"] = d, isStr
 				}
@@ -322,6 +332,30 @@ func decNeighbours(txt string, fd int) (string, string, bool) {
 	return show(v + 1), show(v - 1), true
 }
 
+// the integer bounds of a restriction, sorted, as parts that lie apart
+func tidyRestr(prev []any) []any {
+	var vs []int64
+	seen := map[int64]bool{}
+	for _, p := range prev {
+		for _, b := range p.([]any) {
+			var x int64
+			if n, _ := fmt.Sscan(b.(string), &x); n == 1 && fmt.Sprint(x) == b.(string) && !seen[x] && !seen[x-1] && !seen[x+1] && x < 1000 && x > -1000 {
+				seen[x] = true
+				vs = append(vs, x)
+			}
+		}
+	}
+	sort.Slice(vs, func(i, j int) bool { return vs[i] < vs[j] })
+	if len(vs) < 2 {
+		return nil
+	}
+	var out []any
+	for i := 0; i+1 < len(vs); i += 2 {
+		out = append(out, []any{fmt.Sprint(vs[i]), fmt.Sprint(vs[i+1])})
+	}
+	return out
+}
+
 func deriveRestr(r *Rng, prev []any) []any {
 	var b [][2]int64
 	for _, p := range prev {
@@ -337,7 +371,19 @@ func deriveRestr(r *Rng, prev []any) []any {
 	}
 	one := func(v int64) []any { return []any{fmt.Sprint(v), fmt.Sprint(v)} }
 	first, last := b[0], b[len(b)-1]
-	switch r.Intn(6) {
+	num := func(v int64) string { return fmt.Sprint(v) }
+	switch r.Intn(11) {
+	// the keywords stand for the bounds of the restriction below, not of the built-in type
+	case 6:
+		return []any{[]any{"min", num(first[1])}}
+	case 7:
+		return []any{[]any{"min", "min"}}
+	case 8:
+		return []any{[]any{num(last[0]), "max"}}
+	case 9:
+		return []any{[]any{"min", num(first[0])}, []any{num(last[1]), "max"}}
+	case 10:
+		return []any{[]any{"min", "max"}}
 	case 0:
 		return append(deepCopy(prev).([]any), one(last[1]+1+int64(r.Intn(3))))
 	case 1:
